@@ -9,7 +9,7 @@ def run(ctx):
                 "The harness realises each fault with scripted origins / upstream proxies / TLS peers (refused and timed-out dials, "
                 "TLS garbage, untrusted, expired, wrong-name certificates, CONNECT rejections, replies cut or reset after k bytes of "
                 "head for all k and around chunk boundaries of the body, malformed status line / field / chunk size, damaged gzip stream the proxy itself solicited, trailing "
-                "garbage) through real proxies (direct, upstream, MITM), parses what the client gets with the independent parser "
+                "garbage) through real proxies (direct, upstream, MITM; body-phase faults also with --log-http headers and body), parses what the client gets with the independent parser "
                 "and sends a follow-up request (after an aborted reply: the connection must be closed, not left open). Hostile client byte streams are thrown at plain / TLS / PROXY / MITM listeners. "
                 "Non-trivial = any case with a fault.")
     ctx.mc("Faults.tla", "MC_Faults.cfg")
@@ -22,12 +22,12 @@ def run(ctx):
     for r in out:
         ctx.evaluations += 1
         if r.get("nt"):
-            ctx.nontrivial.add("%s:%s:%s" % (r["f"], r["k"], r["cut"]))
+            ctx.nontrivial.add("%s:%s:%s:%s" % (r["f"], r["k"], r["cut"], r.get("log")))
         if not r["ok"]:
             w = r["why"]
             cls = ("left-open" if "left open" in w else "complete-but-truncated" if ("neither the origin" in w or "mid-body" in w) else "status" if "status" in w
                    else "no-error-header" if "X-Forwarder-Error" in w else "hang" if ("12 s" in w or "left open" in w or "not answered within" in w) else "followup" if "follow-up" in w else "other")
-            ctx.violation("C12:%s:%s:%s" % (cls, r["f"], r["k"]), r)
+            ctx.violation("C12:%s:%s:%s%s" % (cls, r["f"], r["k"], "" if r.get("log") in (None, "errors") else ":log-http=" + r["log"]), r)
         else:
             ctx.traces_ok += 1
     ctx.sample({"fault_case": recs[len(recs) // 2], "result": out[len(out) // 2] if out else None})
